@@ -8,7 +8,8 @@ use duckscript::types::command::CommandResult;
 pub struct C06Prop;
 pub static C06: C06Prop = C06Prop;
 
-const TRUTHY: [&str; 10] = ["true", "1", "yes", "abc", " ", "x y", "TRUE", "-1", "nope", "0.0"];
+// (the last four differ from an operator only in letter case: they are plain truthy values)
+const TRUTHY: [&str; 14] = ["true", "1", "yes", "abc", " ", "x y", "TRUE", "-1", "nope", "0.0", "AND", "Or", "OR", "And"];
 const FALSY: [&str; 9] = ["false", "0", "no", "", "FALSE", "No", "nO", "False", "NO"];
 const CONSUMERS: [&str; 4] = ["not", "if", "elseif", "while"];
 
@@ -221,6 +222,39 @@ impl Prop for C06Prop {
                         }
                     }
                 }
+            }
+        }
+        // truthiness dictionary: every string of length <= 2 (thorough: <= 3) over [a-z0-9 ] and a
+        // list of words a developer might be tempted to treat as "false" — each is truthy unless it
+        // is one of the four documented falsy words (any letter case). Ties the falsy table to the
+        // code's behaviour without relying on the source shape of `is_true`. Words that are
+        // operators or registered command names (a command in first position would be RUN) are skipped.
+        {
+            let reserved: std::collections::HashSet<String> = crate::props::c04::registry_names().into_iter().collect();
+            let alphabet: Vec<char> = "abcdefghijklmnopqrstuvwxyz0123456789 ".chars().collect();
+            let maxlen = if tier == Tier::Quick { 2 } else { 3 };
+            let mut words: Vec<String> = vec![String::new()];
+            let mut layer: Vec<String> = vec![String::new()];
+            for _ in 0..maxlen {
+                let mut next = vec![];
+                for w in &layer {
+                    for c in &alphabet {
+                        next.push(format!("{}{}", w, c));
+                    }
+                }
+                words.extend(next.iter().cloned());
+                layer = next;
+            }
+            for w in ["off", "Off", "OFF", "none", "None", "null", "NULL", "nil", "disabled", "negative", "never", "undefined", "nan", "NaN", "empty", "-", "0.0", "00", "000", "0x0", " 0", "0 ", "-0", "+0", "false ", " false", "fals", "falsee", "noo", "n o", "non", "0false", "false0", "\u{0}", "０", "ｎｏ", "nein", "ko", "fail", "failed", "error", "f", "n"] {
+                words.push(w.to_string());
+            }
+            for w in words {
+                if w == "and" || w == "or" || w == "(" || w == ")" || reserved.contains(&w) {
+                    continue;
+                }
+                let lower = w.to_lowercase();
+                let truthy = !(lower.is_empty() || lower == "0" || lower == "false" || lower == "no");
+                out.push(Case { req: mk("not", &[w.clone()], Some(truthy)), in_domain: true, nontrivial: !w.is_empty(), tags: vec!["truthiness-dictionary"] });
             }
         }
         // truthiness of single values, all consumers
